@@ -164,10 +164,30 @@ def benign(prop, ctx, jobs=8):
             return name, ("SILENT" if r.returncode == 0 else "FALSE-ALARM")
         finally:
             shutil.rmtree(d, ignore_errors=True)
+    def renamed(_):
+        """every local of every function renamed consistently (done on the compiler facts: tools/rename_facts.py)"""
+        d = tempfile.mkdtemp(prefix="benign_ren_", dir="/tmp")
+        try:
+            ext = os.path.join(HERE, "engine", "extract.sh")
+            pairs = []
+            for lbl, flags in (("dev", ""), ("rel", "-C overflow-checks=off -C debug-assertions=off")):
+                raw, ren = os.path.join(d, lbl + ".json"), os.path.join(d, lbl + "_ren.json")
+                r = subprocess.run([ext, repo, raw, flags], capture_output=True, text=True)
+                if r.returncode != 0:
+                    return "facts:all-locals-renamed", "BROKEN"
+                subprocess.run([sys.executable, os.path.join(HERE, "tools", "rename_facts.py"), raw, ren, "_renamed"], check=True, capture_output=True)
+                pairs.append("%s=%s" % (lbl, ren))
+            env = dict(os.environ, VERIF_EVIDENCE_DIR=os.path.join(d, "ev"), VERIF_NO_CONTROLS="1")
+            r = subprocess.run([os.path.join(HERE, "check"), prop, "--facts", ",".join(pairs)], capture_output=True, text=True, env=env)
+            return "facts:all-locals-renamed", ("SILENT" if r.returncode == 0 else "FALSE-ALARM")
+        finally:
+            shutil.rmtree(d, ignore_errors=True)
     out = []
     with ThreadPoolExecutor(max_workers=jobs) as ex:
+        fut = ex.submit(renamed, None)
         for r in ex.map(one, bd.BENIGN):
             out.append(r)
+        out.append(fut.result())
     fa = [n for n, st in out if st == "FALSE-ALARM"]
     for n in fa:
         print("CHECKER-FALSE-ALARM property=%s benign_edit=%s" % (prop, n))
